@@ -68,7 +68,8 @@ def gen(rng, idx, tier, seed):
     k = [1, 1, 2, 3, 4][int(rng.integers(5))]
     chosen = [names[i] for i in rng.permutation(4)[:k]]
     win = [[d, gen_window(rng, dims[d])] for d in chosen]
-    spec = {'file': fs, 'window': win, 'disk': bool(idx % 6 == 2)}
+    spec = {'file': fs, 'window': win, 'disk': bool(idx % 6 == 2),
+            'npint': bool(idx % 3 == 1)}
     if rng.random() < 0.2 and not fs.get('withcf'):
         # time metadata carried by SDATE/STIME/TSTEP alone (no TFLAG
         # variable), which getTimes supports
@@ -105,6 +106,12 @@ def run_in(spec, res, d, h):
             f = g
             res.facet('source:disk')
     kw = {d: dec_sel(s) for d, s in spec['window']}
+    if spec.get('npint'):
+        # integer windows handed over as numpy integers (np.unravel_index,
+        # rng.integers, ...)
+        kw = {d: (np.int64(v) if isinstance(v, int) else v)
+              for d, v in kw.items()}
+        res.facet('numpy-integer-windows')
     x0, y0 = float(f.XORIG), float(f.YORIG)
     xc, yc = float(f.XCELL), float(f.YCELL)
     vg = np.array(f.VGLVLS, copy=True)
